@@ -16,7 +16,7 @@ import (
 // may change only entries of b whose canonical key equals canon(k)).
 
 type c10Op struct {
-	kind   string // put|get|head|delete|multi|copy-to|copy-from|list|create-bucket|delete-bucket
+	kind   string // put|get|head|delete|multi|copy-to|copy-from|list|create-bucket|delete-bucket|mp-part|mp-abort|mp-complete|mp-listparts
 	bucket string
 	key    string
 	read   bool
@@ -31,7 +31,12 @@ type c10Sys struct {
 	maxD  int
 	seq   int
 	cache *c10Snap // snapshot after the last operation (reads leave it valid)
+
+	victimID string      // pending multipart upload of (aaa, "w/y") with one part
+	mpOps    []engine.Op // multipart requests that present the victim's upload id under another key (first step only)
 }
+
+const c10VictimKey = "w/y"
 
 var c10Buckets = []string{"aaa", "bbb"}
 
@@ -63,6 +68,31 @@ func newC10Sys(cfg drv.Config, maxD int) (*c10Sys, error) {
 			if r := w.Do(drv.Req{Method: "PUT", Path: "/" + b + "/" + k, Body: []byte("base:" + b + ":" + k), Header: drv.H("x-amz-meta-base", b)}); r.Status != 200 {
 				return nil, fmt.Errorf("setup: %s", r.Short())
 			}
+		}
+	}
+	// a pending multipart upload that belongs to (aaa, w/y)
+	if r := w.Do(drv.Req{Method: "POST", Path: "/aaa/" + c10VictimKey, Query: "uploads"}); r.Status == 200 {
+		if n := r.XML(); n != nil {
+			s.victimID = n.T("UploadId")
+		}
+	}
+	if s.victimID == "" {
+		return nil, fmt.Errorf("setup: initiate failed")
+	}
+	if r := w.Do(drv.Req{Method: "PUT", Path: "/aaa/" + c10VictimKey, Query: drv.Q("uploadId", s.victimID, "partNumber", "1"), Body: []byte("victim-part")}); r.Status != 200 {
+		return nil, fmt.Errorf("setup: upload part: %s", r.Short())
+	}
+	for _, bn := range []string{"aaa", "bbb"} {
+		for _, k := range c10Keys(cfg.Kind) {
+			if bn == "bbb" && k != "x" && k != "w/y" && k != "../aaa/w/y" {
+				continue
+			}
+			s.mpOps = append(s.mpOps,
+				c10Op{kind: "mp-listparts", bucket: bn, key: k, read: true},
+				c10Op{kind: "mp-part", bucket: bn, key: k},
+				c10Op{kind: "mp-complete", bucket: bn, key: k},
+				c10Op{kind: "mp-abort", bucket: bn, key: k},
+			)
 		}
 	}
 	for _, bn := range c10BucketNames {
@@ -103,6 +133,9 @@ func (s *c10Sys) Ops() []engine.Op {
 		}
 		return out
 	}
+	if s.depth == 0 {
+		return append(append([]engine.Op{}, s.mpOps...), s.ops...)
+	}
 	return s.ops
 }
 
@@ -111,6 +144,7 @@ type c10Snap struct {
 	list    map[string]string            // bucket -> list status
 	objs    map[string]map[string]string // bucket -> key -> view
 	raw     []string
+	upload  string // the victim upload as ListMultipartUploads / ListParts show it
 }
 
 func (s *c10Sys) snap() c10Snap {
@@ -146,6 +180,17 @@ func (s *c10Sys) snap() c10Snap {
 		}
 	}
 	sn.raw = strings.Split(s.w.RawDump(), "\n")
+	if s.victimID != "" {
+		up := s.w.ListUploads("aaa", "")
+		for _, u := range up.Uploads {
+			sn.upload += fmt.Sprintf("upload %s id=%s;", u.Key, u.ID)
+		}
+		pp := s.w.ListParts("aaa", c10VictimKey, s.victimID, "")
+		sn.upload += fmt.Sprintf(" parts-of-victim: %d %s", pp.Status, pp.Code)
+		for _, p := range pp.Parts {
+			sn.upload += fmt.Sprintf(" %d/%d/%s", p.N, p.Size, p.ETag)
+		}
+	}
 	return sn
 }
 
@@ -169,6 +214,7 @@ func (sn c10Snap) canonical() string {
 		}
 	}
 	sb.WriteString(strings.Join(sn.raw, "\n"))
+	sb.WriteString("\n" + sn.upload)
 	return sb.String()
 }
 
@@ -241,6 +287,15 @@ func (s *c10Sys) Apply(op engine.Op) (string, *engine.Violation) {
 			q = drv.Q("prefix", o.key, "delimiter", "/")
 		}
 		r = s.w.Do(drv.Req{Method: "GET", Path: "/" + o.bucket, Query: q})
+	case "mp-listparts":
+		r = s.w.Do(drv.Req{Method: "GET", Path: "/" + o.bucket + "/" + o.key, Query: drv.Q("uploadId", s.victimID)})
+	case "mp-part":
+		r = s.w.Do(drv.Req{Method: "PUT", Path: "/" + o.bucket + "/" + o.key, Query: drv.Q("uploadId", s.victimID, "partNumber", "1"), Body: body})
+	case "mp-complete":
+		r = s.w.Do(drv.Req{Method: "POST", Path: "/" + o.bucket + "/" + o.key, Query: drv.Q("uploadId", s.victimID),
+			Body: []byte("<CompleteMultipartUpload><Part><PartNumber>1</PartNumber><ETag>" + drv.ETagOf([]byte("victim-part")) + "</ETag></Part></CompleteMultipartUpload>")})
+	case "mp-abort":
+		r = s.w.Do(drv.Req{Method: "DELETE", Path: "/" + o.bucket + "/" + o.key, Query: drv.Q("uploadId", s.victimID)})
 	case "create-bucket":
 		r = s.w.Do(drv.Req{Method: "PUT", Path: "/" + o.bucket})
 	case "delete-bucket":
@@ -288,6 +343,17 @@ func (s *c10Sys) Apply(op engine.Op) (string, *engine.Violation) {
 		if !contains(post.buckets, b) && !(o.kind == "delete-bucket" && b == o.bucket) {
 			return bad("bucket-disappeared", "bucket %q disappeared from ListBuckets", b)
 		}
+	}
+	// a pending upload belongs to its bucket and key: requests addressed to another
+	// key (or bucket) must not change it, whatever upload id they present
+	if pre.upload != post.upload {
+		own := addrBucket == "aaa" && s.canon(target) == s.canon(c10VictimKey) && strings.HasPrefix(o.kind, "mp-") && !o.read
+		if !own {
+			return bad("other-keys-upload-changed", "the pending upload of aaa/%s was {%s} and is now {%s}", c10VictimKey, pre.upload, post.upload)
+		}
+	}
+	if strings.HasPrefix(o.kind, "mp-") && r.Status < 300 && !(addrBucket == "aaa" && s.canon(target) == s.canon(c10VictimKey)) {
+		return bad("foreign-upload-id-accepted", "an upload id that belongs to aaa/%s was accepted on another key", c10VictimKey)
 	}
 	// framing on objects
 	allowed := s.canon(target)
@@ -400,7 +466,7 @@ func (s *c10Sys) Check() ([]*engine.Violation, int64) {
 }
 
 func runC10(c *engine.Ctx) {
-	c.Rule = "state = full-store snapshot (every bucket, listing, body, ETag) + raw storage dump of a populated two-bucket store; transition = one operation (put/get/head/delete/multi-delete/copy to/copy from/list/create-bucket/delete-bucket) addressed to a hostile key or bucket name; oracle = framing: only entries of the addressed bucket whose canonical key equals the addressed key may change, nothing else changes, every bucket still lists, non-bucket names never answer with success, storage changes stay under the addressed bucket's directories; distinct_nontrivial = distinct canonical states"
+	c.Rule = "state = full-store snapshot (every bucket, listing, body, ETag) + raw storage dump of a populated two-bucket store; transition = one operation (put/get/head/delete/multi-delete/copy to/copy from/list/create-bucket/delete-bucket, and as a first step list-parts/upload-part/complete/abort presenting the upload id of a pending upload of another key) addressed to a hostile key or bucket name; oracle = framing: only entries of the addressed bucket whose canonical key equals the addressed key may change, nothing else changes, every bucket still lists, non-bucket names never answer with success, storage changes stay under the addressed bucket's directories; distinct_nontrivial = distinct canonical states"
 	c.Assumptions = append(c.Assumptions, "fs backends may refuse any hostile key if nothing changes; aliasing of keys inside the addressed bucket via path cleaning is the fs key domain, not interference", "sequences of <= 2 hostile operations (thorough: <= 3 with the third restricted to reads/deletes)")
 	kinds := drv.MemFsKinds
 	maxD := 2
